@@ -1,4 +1,5 @@
 """Registration of the connection-level (L2) properties: lockstep correspondence + trace oracles."""
+import os
 from gens import vsock_oracles as VO
 
 COMMON_TRUST = ["model of stream_dispatch.rs VirtualSocket::poll and everything below it (Model/VSock.lean, Recovery, Segments, Rx, TxRing, Mtu, Rtte, Wire, SeqNr) - validated by the lockstep differential: byte-exact datagrams, poll results, wake events, congestion-controller call log and state fingerprint after every operation",
@@ -26,7 +27,7 @@ def _demo_d2(P):
     def demo():
         import json as _json
         import check
-        ops = [l.strip() for l in open("/verif/corpus/vsock/known_d2_probe_resplit_after_delivery.ops") if l.strip()]
+        ops = [l.strip() for l in open(os.path.join(os.path.dirname(os.path.abspath(__file__)), "..", "..", "corpus", "vsock") + "/known_d2_probe_resplit_after_delivery.ops") if l.strip()]
         (res,), _tr = check.run_cases([ops])
         return any(h["sig"].get("what") == "diverged_after_delivered_probe_was_resplit" for h in VO.oracle_stream_content(ops, res[0]))
     return demo
@@ -35,7 +36,7 @@ def _demo_d2(P):
 def _demo_d18(P):
     def demo():
         import check
-        ops = [l.strip() for l in open("/verif/corpus/vsock/known_d18_zero_window_no_probe.ops") if l.strip()]
+        ops = [l.strip() for l in open(os.path.join(os.path.dirname(os.path.abspath(__file__)), "..", "..", "corpus", "vsock") + "/known_d18_zero_window_no_probe.ops") if l.strip()]
         (res,), _tr = check.run_cases([ops])
         # still silent an hour later: the last poll emits nothing and ends Pending
         still_silent = res[0][-1].startswith("pending out=[]")
